@@ -157,8 +157,11 @@ def main(argv=None):
             unlisted.append(v)
         else:
             listed[fid] = listed.get(fid, 0) + 1
-    # violations beyond the kept ones cannot be classified individually: be conservative
-    overflow = total.n_violations - len(total.violations)
+    # violations beyond the kept ones share (clause, kind) with kept ones (bounded per key); a key none of
+    # whose kept records was stored at all (global cap) cannot be classified: be conservative
+    kept_keys = set("%s|%s" % (v["clause"], (v["detail"] or {}).get("kind") if isinstance(v["detail"], dict) else "")
+                    for v in total.violations)
+    overflow = sum(n for k, n in total._vkeys.items() if k not in kept_keys)
     wit = witness_status(prop, known, seed)
     for f, hit, _ in wit:
         if hit:
@@ -182,7 +185,7 @@ def main(argv=None):
             seen.add(key)
             if len(replays) < 5:
                 replays.append(core.write_replay(prop, v, seed, tier))
-    elif overflow > 0 and not listed:
+    elif overflow > 0:
         status = "violated"
         rc = 1
     elif total.harness_errors or missing or total.inconclusive_blocking():
